@@ -137,6 +137,66 @@ theorem euclidStep_inv {F : GF.GF} {R f : Nat} {D : List Int × List Int × Bool
                     exact ⟨h2, hqr.2, h4, addOrSubtract_ne (multiply_ne e4) h3 e5⟩
   · cases h
 
+/-- the locator that the model's `runEuclideanAlgorithm` returns is a non-empty coefficient list -/
+theorem runEuclid_sigma_ne (F : GF.GF) (a b : Poly) (ha : a ≠ []) (hb : b ≠ []) (R : Nat) (sigma omega : Poly)
+    (h : runEuclideanAlgorithm F a b R = .ok (sigma, omega)) : sigma ≠ [] := by
+  unfold runEuclideanAlgorithm at h
+  -- the ordered operands
+  have key : ∀ a' b' : Poly, a' ≠ [] → b' ≠ [] →
+      (do let tr ← euclidLoop F R (b'.length + 1) a' b' [0] [1]
+          let sz ← liftD (getCoefficient tr.1 0)
+          if sz = 0 then throw DErr.sigmaZero
+          let inverse ← liftD (F.inv sz)
+          let sg ← liftD (multiplyBy F tr.1 inverse)
+          let om ← liftD (multiplyBy F tr.2 inverse)
+          (Except.ok (sg, om) : DRes (Poly × Poly))) = .ok (sigma, omega) → sigma ≠ [] := by
+    intro a' b' ha' hb' hk
+    simp only [bind, Except.bind] at hk
+    cases hl : euclidLoop F R (b'.length + 1) a' b' [0] [1] with
+    | error e => simp only [hl] at hk; cases hk
+    | ok tr =>
+      simp only [hl] at hk
+      have hrun := euclid_run F R (([], [], true) : List Int × List Int × Bool) (a'.length + b'.length + 2) (b'.length + 1) a' b' [0] [1]
+        (b'.length + 1) (Nat.le_refl _) (by omega) (by omega) (by rw [hl]; intro h; cases h)
+      rw [hl] at hrun
+      obtain ⟨rl, tl, h3⟩ := hrun
+      have hfin : Inv4 (rl, tr.2, tl, tr.1) :=
+        while_inv_brk Inv4 _ (fun t t' ht hs => euclidStep_inv ht hs) (fun t t' ht hs => by
+          unfold euclidStep at hs
+          split at hs
+          · cases hbk : euclidBlk F (a'.length + b'.length + 2) t.1 t.2.1 t.2.2.1 t.2.2.2 with
+            | error e =>
+              rw [hbk] at hs
+              cases e with
+              | base fl => cases fl <;> cases hs
+              | _ => cases hs
+            | ok s2 => rw [hbk] at hs; cases hs
+          · cases hs; exact ht) _ _ _ ⟨ha', hb', by simp, by simp⟩ h3
+      cases hsz : liftD (getCoefficient tr.1 0) with
+      | error e => simp only [hsz] at hk; cases hk
+      | ok sz =>
+        simp only [hsz] at hk
+        by_cases hz : sz = 0
+        · simp only [hz, if_true] at hk; cases hk
+        · simp only [hz, if_false, pure, Except.pure] at hk
+          cases hinv : liftD (GF.GF.inv F sz) with
+          | error e => simp only [hinv] at hk; cases hk
+          | ok inverse =>
+            simp only [hinv] at hk
+            cases hs1 : multiplyBy F tr.1 inverse with
+            | error e => simp only [hs1, liftD] at hk; cases hk
+            | ok sg =>
+              simp only [hs1, liftD] at hk
+              cases hs2 : multiplyBy F tr.2 inverse with
+              | error e => simp only [hs2] at hk; cases hk
+              | ok om =>
+                simp only [hs2] at hk
+                cases hk
+                exact multiplyBy_ne hfin.2.2.2 hs1
+  by_cases hsw : degree a < degree b
+  · simp only [hsw, if_true] at h; exact key b a hb ha h
+  · simp only [hsw, if_false] at h; exact key a b ha hb h
+
 set_option hygiene false in
 /-- everything after the operands have been ordered (first of degree ≥ second); unhygienic on purpose: it refers to
     `F hF R fuel ha' hb' hnf'` of the theorem below -/
